@@ -3,6 +3,8 @@ package main
 // Maps: not modelled yet (every map operation is an unsupported construct).
 
 import (
+	"sort"
+
 	"golang.org/x/tools/go/ssa"
 )
 
@@ -36,4 +38,68 @@ func (fr *Frame) mapDelete(m, k Val, st *State, rch Term) {
 
 // applyGlobalInv: facts about values loaded from package-level variables.
 func (fr *Frame) applyGlobalInv(pl *Place, v Val, st *State, rch Term) {
+	eng := fr.vc.eng
+	g := eng.globalByAddr[pl.Addr]
+	if g == nil || pl.Path != "" {
+		return
+	}
+	if id, ok := eng.errorGlobals()[g]; ok && len(v.C) == 2 {
+		// var errX = errors.New(...): a non-nil error value that is never
+		// reassigned (frame-global sweep), distinct from every other such value
+		fr.vc.assume(and(eq(v.C[0], itoa(int64(eng.typeIDByName("*errors.errorString")))), eq(v.C[1], itoa(-int64(id)-1000))))
+	}
+}
+
+// errorGlobals: package-level variables initialised by errors.New in a package
+// initialiser and stored nowhere else.
+func (eng *Engine) errorGlobals() map[*ssa.Global]int {
+	if eng.errGlobals != nil {
+		return eng.errGlobals
+	}
+	eng.errGlobals = map[*ssa.Global]int{}
+	stores := map[*ssa.Global]int{}
+	cand := map[*ssa.Global]bool{}
+	for fn := range eng.allFuncs {
+		for _, b := range fn.Blocks {
+			for _, ins := range b.Instrs {
+				st, ok := ins.(*ssa.Store)
+				if !ok {
+					continue
+				}
+				g, ok := st.Addr.(*ssa.Global)
+				if !ok {
+					continue
+				}
+				stores[g]++
+				if fn.Name() != "init" || fn.Parent() != nil {
+					continue
+				}
+				if mi, ok := st.Val.(*ssa.MakeInterface); ok {
+					_ = mi
+				}
+				if c, ok := st.Val.(*ssa.Call); ok {
+					if callee := c.Common().StaticCallee(); callee != nil && callee.String() == "errors.New" {
+						cand[g] = true
+					}
+				}
+			}
+		}
+	}
+	var gs []*ssa.Global
+	for g := range cand {
+		if stores[g] == 1 {
+			gs = append(gs, g)
+		}
+	}
+	sort.Slice(gs, func(i, j int) bool { return gs[i].String() < gs[j].String() })
+	for i, g := range gs {
+		eng.errGlobals[g] = i + 1
+	}
+	// io.EOF
+	if p := eng.prog.ImportedPackage("io"); p != nil {
+		if g, ok := p.Members["EOF"].(*ssa.Global); ok {
+			eng.errGlobals[g] = -923 // val = -77, see ioEOF
+		}
+	}
+	return eng.errGlobals
 }
